@@ -476,9 +476,25 @@ static GInt g_call_cb_with_ptr(GInt)
   Sbx::call_indirect<GInt, GP>(g_cb_entry_rep, &ret, g_cb_rep);
   return ret;
 }
+// guest calls a callback that RETURNS a pointer and records the representation it got back
+static GP g_cbret_entry = 0, g_cbret_got = 0;
+static bool g_cbret_trap = false;
+static GInt g_call_cb_ret_ptr(GInt)
+{
+  GP ret = (GP)0xDEADBEEF;
+  g_cbret_trap = !Sbx::call_indirect<GP>(g_cbret_entry, &ret);
+  g_cbret_got = ret;
+  return 0;
+}
 extern "C" {
 int* ret_ptr(int);
 int call_cb_with_ptr(int);
+int call_cb_ret_ptr(int);
+}
+static tainted<int*, Sbx> g_cbret_value;
+static tainted<int*, Sbx> ptr_ret_cb(RS&)
+{
+  return g_cbret_value;
 }
 static const void* g_cb_got = nullptr;
 static tainted<int, Sbx> ptr_cb(RS&, tainted<int*, Sbx> p)
@@ -708,6 +724,23 @@ static void ptr_tests(std::mt19937_64& rng, bool thorough)
       e.wide("rep", (W)*pos[k].c);
       out.put(e);
     }
+    // a callback returns the pointer to the guest
+    {
+      static auto rcb = sb->register_callback(ptr_ret_cb);
+      g_cbret_entry = (GP)rcb.UNSAFE_sandboxed(*sb);
+      g_cbret_value = t;
+      g_cbret_got = (GP)0xDEADBEEF;
+      const char* r = guarded([&] { sb->invoke_sandbox_function(call_cb_ret_ptr, 0); });
+      tr::Ev e("ptrstore");
+      e.str("pos", "callback-result").str("own", "s0").str("out", g_cbret_trap ? "trap" : r).num("size", SIZE);
+      if (off < 0) {
+        e.str("cls", "null");
+      } else {
+        e.str("cls", "in").str("sb", "s0").num("off", off);
+      }
+      e.wide("rep", (W)g_cbret_got);
+      out.put(e);
+    }
     // whole-array store
     {
       tainted<int* [3], Sbx> ta;
@@ -915,6 +948,20 @@ static void chain_tests(bool thorough)
     }
     chain_event("malloc-override(" + std::to_string(rep) + ")", got, r);
   }
+  // the same allocator on a backend that does not confine representations: only RLBox's own
+  // checks of the allocation result stand between a bad block and the application
+  for (unsigned long rep : { 4090ul, 4095ul, 4096ul, 8192ul, 100000ul }) {
+    sb->get_sandbox_impl()->malloc_override = true;
+    sb->get_sandbox_impl()->malloc_override_val = (GP)rep;
+    Sbx::confine_pointers = false;
+    r = guarded([&] { got = sb->malloc_in_sandbox<long long>(2).UNSAFE_unverified(); });
+    Sbx::confine_pointers = true;
+    sb->get_sandbox_impl()->malloc_override = false;
+    if (std::strcmp(r, "ok") == 0 && got != nullptr) {
+      chain_event("malloc-override-unconfined(" + std::to_string(rep) + ").last-byte", (const char*)got + 15, r);
+    }
+    chain_event("malloc-override-unconfined(" + std::to_string(rep) + ")", got, r);
+  }
   {
     int app_obj = 0;
     r = guarded([&] {
@@ -1048,7 +1095,8 @@ static void entry_tests()
   }
 }
 
-static vm_library lib = { 1, { { "ret_ptr", (void*)&g_ret_ptr }, { "call_cb_with_ptr", (void*)&g_call_cb_with_ptr } } };
+static vm_library lib = { 1, { { "ret_ptr", (void*)&g_ret_ptr }, { "call_cb_with_ptr", (void*)&g_call_cb_with_ptr },
+                                { "call_cb_ret_ptr", (void*)&g_call_cb_ret_ptr } } };
 
 int main(int argc, char** argv)
 {
